@@ -75,13 +75,15 @@ Print Assumptions C15_fresh_collection.
    what the grammar yields for its key (nothing a rule did to its copy is visible to the next rule),
    and a value list cached by an external-source transformation object is exactly what its source
    yields: a failed fetch / parse leaves no cache entry behind; the variables of a backend's pipeline
-   object are the merged definitions plus THIS backend's options (nothing of another backend) *)
+   object are the merged definitions plus THIS backend's options (nothing of another backend); the nested pipeline
+   object of every `nest` postprocessing item is untouched again (no state, nothing applied) *)
 Theorem C15_state_restored : forall E ops,
   let w := fst (run E init ops) in
   (forall c, w_tpl w c = tpl0) /\ (forall k t, lookup k (w_cache w) = Some t -> e_parse E k = Some t) /\
   (forall i it d v, w_vc w i = Some v -> valid_pair E i it -> i_tr it = TFile d -> e_src E d = Ok v) /\
   (forall b bk L f, nth_error (w_bks w) b = Some bk -> b_last bk = Some (L, f) ->
-     w_pvars w L = init_vars E (b_cls bk) (b_user bk) (b_opts bk) f).
+     w_pvars w L = init_vars E (b_cls bk) (b_user bk) (b_opts bk) f) /\
+  (forall i, w_nest w i = ([], [])).
 Proof. exact invariant_reachable. Qed.
 Print Assumptions C15_state_restored.
 
